@@ -29,6 +29,11 @@ fn vsexp(v: &Value, codes: &mut Vec<String>) -> String {
         Value::Json(x) => match x { None => "(j n)".into(), Some(j) => { let k = serde_json::to_string(j).unwrap(); format!("(j {})", code(codes, k)) } },
         Value::Vector(x) => match x { None => "(v n)".into(), Some(vv) => format!("(v l{})", vv.as_slice().iter().map(|e| format!(" {}", f32s(*e))).collect::<String>()) },
         Value::Array(ty, x) => { let tyc = code(codes, format!("arrty:{:?}", ty)); match x { None => format!("(a {tyc} n)"), Some(vs) => format!("(a {tyc} l{})", vs.iter().map(|e| format!(" {}", vsexp(e, codes))).collect::<String>()) } }
+        // payloads whose own equality is coarser than their text: the code is taken from a canonical form
+        Value::ChronoDateTimeWithTimeZone(Some(dt)) => format!("(p {t} {})", code(codes, format!("instant:{:?}", dt.naive_utc()))),
+        Value::TimeDateTimeWithTimeZone(Some(dt)) => format!("(p {t} {})", code(codes, format!("instant:{}", dt.unix_timestamp_nanos()))),
+        Value::Decimal(Some(x)) => format!("(p {t} {})", code(codes, format!("dec:{}", x.normalize()))),
+        Value::BigDecimal(Some(x)) => format!("(p {t} {})", code(codes, format!("big:{}", x.normalized()))),
         _ => if null { format!("(p {t} n)") } else { format!("(p {t} {})", code(codes, format!("{:?}", v))) },
     }
 }
@@ -49,6 +54,21 @@ pub fn value_pool(r: &mut SplitMix64, extra: usize) -> Vec<Value> {
     p.push(Value::Array(ArrayType::Int, Some(Box::new(vec![Value::Array(ArrayType::Float, Some(Box::new(vec![0.0f32.into(), f32::NAN.into()]))), Value::Int(None)]))));
     p.push(Value::Array(ArrayType::Int, Some(Box::new(vec![Value::Array(ArrayType::Float, Some(Box::new(vec![(-0.0f32).into(), f32::from_bits(0x7fc0_0005).into()]))), Value::Int(None)]))));
     p.push(Value::Array(ArrayType::Int, Some(Box::new(vec![Value::Array(ArrayType::Float, Some(Box::new(vec![0.0f32.into()]))), Value::Int(None)]))));
+    // NULL arrays of different element types, alone and nested
+    for ty in [ArrayType::Int, ArrayType::String, ArrayType::Float, ArrayType::Bool] { p.push(Value::Array(ty, None)); }
+    p.push(Value::Array(ArrayType::Int, Some(Box::new(vec![Value::Array(ArrayType::Int, None)]))));
+    p.push(Value::Array(ArrayType::Int, Some(Box::new(vec![Value::Array(ArrayType::String, None)]))));
+    // the same instant written in different offsets (equal), the same wall-clock reading in different offsets (different)
+    { use chrono::TimeZone;
+      let inst = chrono::Utc.with_ymd_and_hms(2024, 3, 10, 12, 0, 0).unwrap();
+      for secs in [0, 8 * 3600, -5 * 3600, 1800] { p.push(inst.with_timezone(&chrono::FixedOffset::east_opt(secs).unwrap()).into()); }
+      for secs in [0, 8 * 3600] { p.push(chrono::FixedOffset::east_opt(secs).unwrap().with_ymd_and_hms(2024, 3, 10, 12, 0, 0).unwrap().into()); }
+      p.push(inst.into()); p.push(inst.with_timezone(&chrono::Local).into());
+      let t0 = time::OffsetDateTime::from_unix_timestamp(1_710_072_000).unwrap();
+      for h in [0i8, 8, -5] { p.push(t0.to_offset(time::UtcOffset::from_hms(h, 0, 0).unwrap()).into()); }
+    }
+    // numerically equal decimals with different scales
+    for t in ["1.0", "1.00", "1", "-0", "0.0", "100", "1e2"] { if let Ok(d) = t.parse::<rust_decimal::Decimal>() { p.push(d.into()); } if let Ok(d) = t.parse::<bigdecimal::BigDecimal>() { p.push(d.into()); } }
     p.push("".into()); p.push("s".into()); p.push(String::from("s").into()); p.push(0i32.into()); p.push(0i64.into()); p.push(0u8.into()); p.push(false.into());
     p.push(Vec::<u8>::new().into()); p.push(vec![0u8].into()); p.push('\0'.into());
     for _ in 0..extra {
@@ -66,7 +86,7 @@ pub fn run(ctx: &mut Ctx) {
     let mut r = ctx.rng.fork();
     let pool = value_pool(&mut r, extra);
     let n = pool.len();
-    ctx.rule = format!("pool of {n} values: every variant (one non-NULL, one NULL), NaNs with different payloads and signs, +0/-0, infinities, subnormals for f32 and f64, JSON with permuted keys / null / \"null\" / +0.0 and -0.0 at several depths / 1 and 1.0, vectors (empty, prefixes, NaN, -0), arrays (empty of two element types, nested with floats), empty and equal strings/bytes, plus {extra} random values; ALL ordered pairs (==, hash with a fixed DefaultHasher, symmetry, variant separation, model agreement) and ALL triples for transitivity; HashSet membership; ValueTuple: all pairs and triples of ~200 tuples of every shape (One / Two / Three / Many of length 0..4) over ten members (==, hash, reflexive / symmetric / transitive, HashSet lookup). Non-trivial = every pair; distinct by pair.");
+    ctx.rule = format!("pool of {n} values: every variant (one non-NULL, one NULL), NaNs with different payloads and signs, +0/-0, infinities, subnormals for f32 and f64, JSON with permuted keys / null / \"null\" / +0.0 and -0.0 at several depths / 1 and 1.0, vectors (empty, prefixes, NaN, -0), arrays (empty of two element types, NULL of four element types alone and nested, nested with floats), date-times with the same instant in different offsets and the same reading in different offsets, decimals equal up to scale, empty and equal strings/bytes, plus {extra} random values; ALL ordered pairs (==, hash with a fixed DefaultHasher, symmetry, variant separation, model agreement) and ALL triples for transitivity; HashSet membership; ValueTuple: all pairs and triples of ~200 tuples of every shape (One / Two / Three / Many of length 0..4) over ten members (==, hash, reflexive / symmetric / transitive, HashSet lookup). Non-trivial = every pair; distinct by pair.");
     let mut codes: Vec<String> = Vec::new();
     let sx: Vec<String> = pool.iter().map(|v| vsexp(v, &mut codes)).collect();
     let hs: Vec<u64> = pool.iter().map(h).collect();
